@@ -299,7 +299,14 @@ structure PartNode where
   vols   : List VolNode
 deriving Repr
 
-def partName (k : Nat) : Name := [Char.ofNat (65 + k), ':']
+/-- `AkaiImageParser._partition_letters`: A .. Z, then AA, AB, ... (D23). -/
+def partLetters (k : Nat) : List Char :=
+  if k < 26 then [Char.ofNat (65 + k)]
+  else partLetters (k / 26 - 1) ++ [Char.ofNat (65 + k % 26)]
+termination_by k
+decreasing_by omega
+
+def partName (k : Nat) : Name := partLetters k ++ [':']
 
 /-- the whole directory tree of an image. -/
 def tree (file : Bytes) (programOk : Bytes → Bool) : Except Err (List PartNode) :=
